@@ -483,6 +483,9 @@ pub fn generate(tier: Tier, rng: &mut Rng) -> Vec<Case> {
         "has(a.b)", "has(a)", "has(a.b.c)", "has(a[0])", "a.has(b.c)", "has(a.b, c)", "[1].all(x, x > 0)", "[1].all(1, true)", "[1].all(x.y, true)", "all([1], x, true)", "[1].map(x, y, z)", "[1].map(x, y, z, w)", "[1].exists_one(x, x)", "[1].existsOne(x, x)", "a.filter(x, x).map(y, y)",
         "a.?b", "a[?b]", "[?a]", "{?a: b}", "T{?a: b}", "a ? b", "a ? : b", "a :", "1 +", "", " ", "\t", "(", ")", "(((", "a)", "[1", "{1:}", "{1}", "a.", "a..b", "a b", "1 2", "a,b", "f(,)", "f(a,)", "[a,,]", "{a:b,,}",
         "'x'", "\"x\"", "'''x'''", "\"\"\"x\"\"\"", "r'x'", "R\"x\"", "r'''x'''", "b'x'", "B\"x\"", "br'x'", "bR\"x\"", "rb'x'", "b'''x'''", "'a' 'b'", "'\\q'", "'\\x4'", "'\\400'", "'\\u12'", "\"unterminated", "'a\nb'", "'''a\nb'''", "r'a\\'", "'\\\\'",
+        // names that are almost, but not exactly, macro names stay ordinary calls
+        "x.Map(v, f)", "HAS(a.b)", "Has(a.b)", "x.ALL(v, p)", "x.All(v, p)", "x.exists_One(v, p)", "x.exists_one_(v, p)", "x._filter(v, p)", "x.filter_(v, p)", "x.Exists(1, 2)", "x.existsone(v, p)", "x.ExistsOne(v, p)", "x.EXISTS_ONE(v, p)",
+        "x.map_(v, f)", "x.mapp(v, f)", "x.al(v, p)", "has_(a.b)", "_has(a.b)", "x.Filter(v, p).map(w, w)", "x.map(v, v.Map(w, w))", "x.exists__one(v, p)", "x.MAP(v, p, f)",
         "a // comment", "// only", "a // c\n + b", "a\n+\nb", "a\u{c}b", "ä", "a ä", "'ä'", "a && b || c && d", "a || b && c || d", "a < b < c", "a == b != c", "a + b - c + d", "a * b / c % d", "a + b * c - d / e",
     ] {
         let mut c = compile_case(src);
